@@ -30,6 +30,9 @@ CHECKS = {
  "C10": ("exploration", "wire-length monitor and core output-callback monitor under any-int SetMtu values before/during traffic; enumerated staging-buffer fill levels; process-survival oracle",
    "Held on the executions produced; the staging sweep enumerates every ACK-count/probe/segment-size combination around the MTU boundary for 15 MTU values.",
    "pipeline drained before a switch so that 'from then on' is well defined", "DESIGN.md §3 C10"),
+ "C13": ("exploration", "virtual-time trace monitor: return time and error class of every blocked caller recorded at the API boundary and compared with a reference model of deadline/data/close/error semantics at bubble quiescence after each scripted stimulus",
+   "Thousands of scripted interleavings of blocked Read/Write/Accept callers with deadline changes, arrivals, Close and socket errors, judged to the exact virtual millisecond; held on the scripts executed.",
+   "synctest virtual time; Go scheduler order inside one instant", "DESIGN.md §3 C13"),
  "C15": ("exploration", "goroutine/callback leak monitor at bubble quiescence after scripted Close orders; buffer-pool sanitizer (ownership map, poison, quarantine) at hook H2 in every scenario",
    "Held on the Close scripts and buffer acquisitions executed (hundreds of thousands of tracked acquisitions per quick run); a survivor goroutine is reported with its stack, a double recycle with both recycling stacks.",
    "runtime.Stack parsing; hook H2 add-only call-outs in bufferPool.Get/Put", "DESIGN.md §3 C15"),
